@@ -1,0 +1,191 @@
+//go:build verif
+
+package http2
+
+import (
+	"fmt"
+	"sync"
+	"sync/atomic"
+)
+
+// Instrumented versions of the verification hooks (build tag verif). They only
+// count and record; none of them changes what the package does.
+
+// Server progress counters, read by the verification harness to decide when the
+// connection under test is quiescent.
+var (
+	VerifForwardedN  atomic.Int64 // frames handed to the stream loop
+	VerifLoopTopN    atomic.Int64 // stream loop iterations started
+	VerifLoopExitN   atomic.Int64 // stream loops that have returned
+	VerifQueuedN     atomic.Int64 // frames queued for the write loop
+	VerifDroppedN    atomic.Int64 // frames dropped at writeStop
+	VerifDispatchedN atomic.Int64 // handlers started
+
+	VerifStrms atomic.Int64 // gauge: stream table length
+	VerifOpen  atomic.Int64 // gauge: open slots in use
+	VerifRing  atomic.Int64 // gauge: closed-id ring length
+	VerifHeld  atomic.Int64 // gauge: header octets held back across frames
+
+	VerifClientEnqN      atomic.Int64 // items put into in/out/winCh
+	VerifClientDeqN      atomic.Int64 // write-loop iterations completed
+	VerifClientLoopExits atomic.Int64 // client loops that have returned
+
+	verifLastSC atomic.Pointer[serverConn]
+
+	// VerifYieldFn, when set, is called at the named yield points.
+	VerifYieldFn atomic.Pointer[func(point string)]
+)
+
+func verifForwarded() { VerifForwardedN.Add(1) }
+
+func verifLoopTop(strms, open, ring, held int) {
+	VerifStrms.Store(int64(strms))
+	VerifOpen.Store(int64(open))
+	VerifRing.Store(int64(ring))
+	VerifHeld.Store(int64(held))
+	VerifLoopTopN.Add(1)
+}
+
+func verifLoopExit() { VerifLoopExitN.Add(1) }
+
+func verifQueued(dropped bool) {
+	if dropped {
+		VerifDroppedN.Add(1)
+	} else {
+		VerifQueuedN.Add(1)
+	}
+}
+
+func verifDispatched() { VerifDispatchedN.Add(1) }
+
+func verifServerConn(sc *serverConn) { verifLastSC.Store(sc) }
+
+func verifClientEnq(kind string) { VerifClientEnqN.Add(1) }
+
+func verifClientDeq() { VerifClientDeqN.Add(1) }
+
+func verifClientLoopExit(which string) { VerifClientLoopExits.Add(1) }
+
+func verifYield(point string) {
+	if f := VerifYieldFn.Load(); f != nil {
+		(*f)(point)
+	}
+}
+
+// VerifResetCounters zeroes the progress counters before a new connection.
+func VerifResetCounters() {
+	for _, c := range []*atomic.Int64{
+		&VerifForwardedN, &VerifLoopTopN, &VerifLoopExitN, &VerifQueuedN,
+		&VerifDroppedN, &VerifDispatchedN, &VerifStrms, &VerifOpen, &VerifRing,
+		&VerifHeld, &VerifClientEnqN, &VerifClientDeqN, &VerifClientLoopExits,
+	} {
+		c.Store(0)
+	}
+}
+
+// Pool tracker: every pooled object is either held (acquired, not yet
+// released) or free. Releasing a free object, or acquiring a held one, means
+// two owners can end up with the same object.
+type verifPoolState struct {
+	held     bool
+	acquires int
+}
+
+var (
+	verifPoolMu       sync.Mutex
+	verifPoolOn       bool
+	verifPoolObjs     = map[interface{}]*verifPoolState{}
+	verifPoolEvents   int64
+	verifPoolAnomaly  []string
+	verifPoolAcquires = map[string]int64{}
+	verifPoolReleases = map[string]int64{}
+)
+
+// VerifPoolTrack switches the tracker on or off and clears what it recorded.
+func VerifPoolTrack(on bool) {
+	verifPoolMu.Lock()
+	verifPoolOn = on
+	verifPoolObjs = map[interface{}]*verifPoolState{}
+	verifPoolEvents = 0
+	verifPoolAnomaly = nil
+	verifPoolAcquires = map[string]int64{}
+	verifPoolReleases = map[string]int64{}
+	verifPoolMu.Unlock()
+}
+
+// VerifPoolReport returns the anomalies seen so far, the number of events and
+// the per-kind acquire and release counts.
+func VerifPoolReport() (anomalies []string, events int64, acq, rel map[string]int64) {
+	verifPoolMu.Lock()
+	defer verifPoolMu.Unlock()
+
+	acq = map[string]int64{}
+	rel = map[string]int64{}
+	for k, v := range verifPoolAcquires {
+		acq[k] = v
+	}
+	for k, v := range verifPoolReleases {
+		rel[k] = v
+	}
+
+	return append([]string(nil), verifPoolAnomaly...), verifPoolEvents, acq, rel
+}
+
+func verifAcquire(kind string, p interface{}) {
+	verifPoolMu.Lock()
+	defer verifPoolMu.Unlock()
+
+	if !verifPoolOn {
+		return
+	}
+
+	verifPoolEvents++
+	verifPoolAcquires[kind]++
+
+	st := verifPoolObjs[p]
+	if st == nil {
+		st = &verifPoolState{}
+		verifPoolObjs[p] = st
+	}
+
+	if st.held {
+		verifPoolAnomaly = append(verifPoolAnomaly, fmt.Sprintf("two-owners %s", kind))
+	}
+
+	st.held = true
+	st.acquires++
+}
+
+func verifRelease(kind string, p interface{}) {
+	verifPoolMu.Lock()
+	defer verifPoolMu.Unlock()
+
+	if !verifPoolOn {
+		return
+	}
+
+	verifPoolEvents++
+	verifPoolReleases[kind]++
+
+	st := verifPoolObjs[p]
+	if st == nil {
+		// Built by hand rather than acquired; the pool takes it all the same.
+		st = &verifPoolState{held: true}
+		verifPoolObjs[p] = st
+	}
+
+	if !st.held {
+		verifPoolAnomaly = append(verifPoolAnomaly, fmt.Sprintf("double-release %s", kind))
+	}
+
+	st.held = false
+}
+
+func verifHeldBytes(strms Streams) int {
+	n := 0
+	for _, s := range strms {
+		n += len(s.previousHeaderBytes)
+	}
+
+	return n
+}
